@@ -50,7 +50,7 @@ def _log(msg):
         sys.stderr.flush()
 
 
-def _child(cmd, args, tag, timeout=3000, env=None):
+def _child(cmd, args, tag, timeout=20000, env=None):
     t = time.time()
     ch = core.run_child(LIB, [cmd] + [str(a) for a in args], with_snapshot=True, timeout=timeout, mem_mb=8192, env=env)
     recs = ch.json_lines()
@@ -194,14 +194,14 @@ def part_a(tier, seed, rng, rep, cov, jobs, tj):
     for n, gs in by_n.items():
         f = os.path.join(wd, "filegraphs_%d.ndjson" % n)
         core.write_ndjson(f, gs)
-        tj.tlc("file%d" % n, "DepTree", cfg="DepTree_file", workers=4, env={"DT_N": n, "DT_GRAPHS": f}, timeout=5000)
+        tj.tlc("file%d" % n, "DepTree", cfg="DepTree_file", workers=4, env={"DT_N": n, "DT_GRAPHS": f}, timeout=12000)
     # --- exhaustive model checking
-    tj.tlc("n3", "DepTree", cfg="DepTree_n3", workers=4, coverage=True, timeout=5000)
+    tj.tlc("n3", "DepTree", cfg="DepTree_n3", workers=4, coverage=True, timeout=12000)
     if quick:
-        tj.tlc("n4", "DepTree", cfg="DepTree_n4q", workers=6, coverage=True, timeout=5000)
+        tj.tlc("n4", "DepTree", cfg="DepTree_n4q", workers=6, coverage=True, timeout=12000)
     else:
-        tj.tlc("n4", "DepTree", cfg="DepTree_n4", workers=core.NCPU, timeout=6000, heap="12g")
-    tj.tlc("n3dump", "DepTree", cfg="DepTree_n3dump", workers=4, timeout=5000)
+        tj.tlc("n4", "DepTree", cfg="DepTree_n4", workers=core.NCPU, timeout=30000, heap="12g")
+    tj.tlc("n3dump", "DepTree", cfg="DepTree_n3dump", workers=4, timeout=12000)
 
     def finish():
         n3, n4, dump = tj.get("n3"), tj.get("n4"), tj.get("n3dump")
@@ -386,7 +386,7 @@ def part_b(tier, seed, rng, rep, cov, jobs, tj):
     initf = os.path.join(wd, "db_init.ndjson")
     core.write_ndjson(initf, [random_tree(rng) for _ in range(12 if quick else 60)])
     tj.tlc("bsmall", "DepTreeBuild", cfg="DepTreeBuild_small" if quick else "DepTreeBuild_deep", workers=6 if quick else core.NCPU,
-           coverage=True, timeout=5000)
+           coverage=True, timeout=12000)
     want = 40 if quick else 640
     # stops as soon as max_records histories are there; `seconds` is only the safety net
     tj.sim("bsim", "DepTreeBuild", "DepTreeBuild_sim", seconds=400 if quick else 1500, depth=14, workers=4,
@@ -493,8 +493,8 @@ SRC_ACTIONS = ["Stmt", "Assign", "Continue", "Open", "Hash", "EndLine", "Semi", 
 def part_c(tier, seed, rng, rep, cov, jobs, tj):
     quick = tier == "quick"
     wd = core.subdir("c46")
-    tj.tlc("forms", "DepTreeSrc", cfg="DepTreeSrc_forms", workers=4, coverage=True, timeout=3000)
-    tj.tlc("lex", "DepTreeSrc", cfg="DepTreeSrc_lex5" if quick else "DepTreeSrc_lex", workers=6 if quick else core.NCPU, coverage=True, timeout=5000)
+    tj.tlc("forms", "DepTreeSrc", cfg="DepTreeSrc_forms", workers=4, coverage=True, timeout=12000)
+    tj.tlc("lex", "DepTreeSrc", cfg="DepTreeSrc_lex5" if quick else "DepTreeSrc_lex", workers=6 if quick else core.NCPU, coverage=True, timeout=12000)
     tj.sim("ssim", "DepTreeSrc", "DepTreeSrc_sim", seconds=400 if quick else 1500, depth=45, workers=4, seed=seed,
            max_records=600 if quick else 6000)
 
